@@ -131,6 +131,41 @@ func checkCase(t *vk.T, c *gj5s.Case) {
 			return
 		}
 	}
+	// the same schemas through SchemaCache.Schema, asked in three orders
+	if reg, err := gj5s.Relink(files); err == nil {
+		var mds []protoreflect.MessageDescriptor
+		var collect func(m protoreflect.MessageDescriptors)
+		collect = func(m protoreflect.MessageDescriptors) {
+			for i := 0; i < m.Len(); i++ {
+				if !m.Get(i).IsMapEntry() {
+					mds = append(mds, m.Get(i))
+					collect(m.Get(i).Messages())
+				}
+			}
+		}
+		for _, f := range files {
+			if fd, err := reg.FindFileByPath(f.Path()); err == nil {
+				collect(fd.Messages())
+			}
+		}
+		orders := [][]protoreflect.MessageDescriptor{mds, reversed(mds), byDepth(mds)}
+		for oi, order := range orders {
+			cache := j5schema.NewSchemaCache()
+			for _, md := range order {
+				sch, err := cache.Schema(md)
+				t.Step()
+				if err != nil {
+					t.Violation("cache-reflection-fails|"+fam+"|"+vk.ErrTail(err), fmt.Sprintf("SchemaCache.Schema(%s) fails: %v\n%s", md.FullName(), err, src), src, nil, err.Error())
+					return
+				}
+				key := string(md.ParentFile().Package()) + "/" + strings.ReplaceAll(strings.TrimPrefix(string(md.FullName()), string(md.ParentFile().Package())+"."), ".", "_")
+				if g := got[key]; g != nil && !proto.Equal(g, sch.ToJ5Root()) {
+					t.Violation("cache-differs-from-set|"+fam, fmt.Sprintf("SchemaCache.Schema(%s) (query order %d) differs from SchemaSetFromFiles\nset:   %s\ncache: %s\n%s", md.FullName(), oi, txt(g), txt(sch.ToJ5Root()), src), src, txt(g), txt(sch.ToJ5Root()))
+					return
+				}
+			}
+		}
+	}
 	// the same schemas from the printed text
 	texts := map[string]string{}
 	for _, f := range files {
@@ -225,4 +260,21 @@ func sigScope(c *gj5s.Case) string {
 		return c.Coord
 	}
 	return c.Family
+}
+
+func reversed(in []protoreflect.MessageDescriptor) []protoreflect.MessageDescriptor {
+	out := make([]protoreflect.MessageDescriptor, len(in))
+	for i, m := range in {
+		out[len(in)-1-i] = m
+	}
+	return out
+}
+
+// byDepth: top-level messages first, then nested ones.
+func byDepth(in []protoreflect.MessageDescriptor) []protoreflect.MessageDescriptor {
+	out := append([]protoreflect.MessageDescriptor{}, in...)
+	sort.SliceStable(out, func(i, j int) bool {
+		return strings.Count(string(out[i].FullName()), ".") < strings.Count(string(out[j].FullName()), ".")
+	})
+	return out
 }
